@@ -397,6 +397,54 @@ target(B + 'not_', area='Scalar', owners=['C15'], ambient=FOPS,
        model='Yaql.PyNum.boolOf (%s)' % (RUN % ('not', 'arg')), theorem='not_src_eq')
 
 
+# ------------------------------------------------------------------------------------------------ C07 yaqlized.py
+ENTRY = '@Yaql.Yaqlized.Entry'
+SETTINGS = '@Yaql.Yaqlized.Settings<@Yaql.Yaqlized.Entry>'
+REMAP = '@Yaql.Yaqlized.RemapTarget'
+PYERR = '@Yaql.Py.Err'
+UNIVERSES['Yaql.Yaqlized.Entry'] = dict(
+    ops={'Eq': Prim('(Yaql.PyYq.eqName {0} {1})', ['str', ENTRY], BOOL)},
+    isinstance={'REGEX_TYPE': '(Yaql.PyYq.isRegex {0})'},
+    methods={'search': Prim('(Yaql.PyYq.search {self} {0})', ['str'], T('unit?'))},
+    callable='(Yaql.PyYq.isCallable {0})',
+    call=Prim('(Yaql.PyYq.call {self} {0})', ['str'], BOOL),
+    codec=('Yaql.Drv.SrcYq.decEntry', 'Yaql.Drv.SrcYq.decEntry'),
+)
+UNIVERSES['Yaql.Yaqlized.Settings'] = dict(
+    items={'whitelist': ('{self}.whitelist', '[%s]' % ENTRY), 'blacklist': ('{self}.blacklist', '[%s]' % ENTRY),
+           'attributeRemapping': ('{self}.remapping', '{str: %s}' % REMAP),
+           'autoYaqlizeResult': ('{self}.autoYaqlizeResult', 'bool')},
+    codec=('Yaql.Drv.SrcYq.decSettings', 'Yaql.Drv.SrcYq.decSettings'),
+)
+UNIVERSES['Yaql.Yaqlized.RemapTarget'] = dict(
+    inject={'str': '(Yaql.Yaqlized.RemapTarget.name {0})'},
+    codec=('Yaql.Drv.SrcYq.decRemap', 'Yaql.Drv.SrcYq.encRemap'),
+)
+UNIVERSES['Yaql.Py.Err'] = dict(structural_eq=True, codec=('Yaql.Drv.SrcYq.decErr', 'Yaql.Drv.SrcYq.decErr'))
+py2lean.GLOBAL_CONSTS.update({
+    'AttributeError': ('Yaql.Py.Err.attributeError', PYERR),
+    'KeyError': ('Yaql.Py.Err.keyError', PYERR),
+})
+
+area('Yaqlized', imports=['Yaql.Model.PyPrelude', 'Yaql.Model.PyYq', 'Yaql.Model.Yaqlized'],
+     drv_imports=['Yaql.Drv.SrcYq'])
+Y = 'yaql.standard_library.yaqlized:'
+
+target(Y + '_match_name_to_entry', area='Yaqlized', owners=['C07'], name='match_name_to_entry',
+       params=[('name', 'str'), ('entry', ENTRY)], ret='bool',
+       model='Yaql.Yaqlized.Entry.matchesName entry name', theorem='match_name_to_entry_src_eq')
+target(Y + '_validate_name', area='Yaqlized', owners=['C07'], name='validate_name', raises=True,
+       params=[('name', 'str'), ('settings', SETTINGS), ('exception_cls', PYERR)], ret='unit',
+       model='match exception_cls with '
+             '| .keyError => Yaql.PyYq.liftErr (Yaql.Yaqlized.validateName .keyError settings name) '
+             '| .attributeError => Yaql.PyYq.liftErr (Yaql.Yaqlized.validateName .attributeError settings name) '
+             '| e => (match Yaql.Yaqlized.validateName .keyError settings name with | .ok u => .ok u | .error _ => .error e)',
+       theorem='validate_name_src_eq')
+target(Y + '_remap_name', area='Yaqlized', owners=['C07'], name='remap_name',
+       params=[('name', 'str'), ('settings', SETTINGS)], ret=REMAP,
+       model='Yaql.Yaqlized.remapName settings name', theorem='remap_name_src_eq')
+
+
 def by_area():
     out = {}
     for t in TARGETS:
